@@ -7,22 +7,20 @@ set_option linter.unusedVariables false
 namespace SgVerif.C11
 
 /-- the actor is the target of the `suspend` / `resume` that the line executes -/
-def Tgt (o : Op) (sk : Bool) (j : Nat) : Prop := sk = false ∧ (o = .suspend j ∨ o = .resume j)
+def Tgt (o : Op) (sk : Bool) (j : Nat) : Prop := sk = false ∧ o = .resume j
 
 theorem AStep.mk' {t : Rat} {slf tgt : Prop} {x y : Actor} (hops : y.ops = x.ops) (hlife : y.life = x.life)
     (hpid : y.pid = x.pid)
     (hk : y.killAt = x.killAt ∨ (∃ kt, y.killAt = some kt ∧ t < kt))
-    (hs : (y.suspended = x.suspended ∧ y.suspendedAt = x.suspendedAt) ∨ tgt)
+    (hs : x.suspended = true → (y.suspended = true ∧ y.suspendedAt = x.suspendedAt) ∨ tgt)
     (hp : (y.pc = x.pc ∧ y.inJoin = x.inJoin) ∨ slf) (hd : x.daemon = true → y.daemon = true) : AStep t slf tgt x y := by
-  refine ⟨hops, ?_, ?_, ?_, ?_, ?_, ?_, fun _ _ => hs, fun _ _ => hp, hd, fun _ => hpid⟩
+  refine ⟨hops, ?_, ?_, ?_, ?_, ?_, fun _ => hk, fun hx hy => absurd (by rw [hlife]; exact hx) hy,
+    fun _ _ => hs, fun _ _ => hp, hd, fun _ => hpid⟩
   · rw [hlife]; exact id
   · rw [hlife]; exact Or.inl
   · intro d; rw [hlife]; exact Or.inl
   · rw [hlife]; exact id
   · intro d; rw [hlife]; exact Or.inl
-  · rcases hk with h | h
-    · exact Or.inl h
-    · exact Or.inr (Or.inl h)
 
 /-- result of an op: a system that differs from `s1` by its actor table (and `nextPid`) -/
 theorem rel_of_acts {t : Rat} {slf tgt : Nat → Prop} (s1 r : Sys) (hk : r.k = s1.k) (hc : r.clock = s1.clock)
@@ -53,7 +51,7 @@ theorem applyOp_rel (s s1 r : Sys) (a i : Nat) (t : Rat) (x1 : Actor) (o : Op) (
       · subst hj
         simp only [upd, if_true]
         have hl : (s1.acts j).life = .absent := by rw [hlife]; exact hcl
-        refine ⟨rfl, ?_, ?_, ?_, ?_, ?_, Or.inr (Or.inr ⟨hl, rfl⟩), ?_, ?_, id, ?_⟩
+        refine ⟨rfl, ?_, ?_, ?_, ?_, ?_, fun e => absurd hl e, fun _ _ => Or.inl rfl, ?_, ?_, id, ?_⟩
         · intro e; cases e
         · intro _; exact Or.inr hl
         · intro d e; cases e
@@ -103,14 +101,14 @@ theorem applyOp_rel (s s1 r : Sys) (a i : Nat) (t : Rat) (x1 : Actor) (o : Op) (
       · split at h
         · cases h
           exact rel_of_acts s1 _ rfl rfl (astep_upd _ a _
-            (AStep.mk' (by rw [hx1]) (by rw [hx1]) (by rw [hx1]) (Or.inl (by rw [hx1])) (Or.inl ⟨by rw [hx1], by rw [hx1]⟩)
+            (AStep.mk' (by rw [hx1]) (by rw [hx1]) (by rw [hx1]) (Or.inl (by rw [hx1])) (fun hs => Or.inl ⟨by rw [hx1] at hs; exact hs, by rw [hx1]⟩)
               (Or.inr rfl) (by rw [hx1]; exact id)))
         · cases h
           refine rel_of_acts s1 _ rfl rfl (fun j => ?_)
           have st1 : ∀ j, AStep t (j = a) (Tgt (.join b timeout) sk j) (s1.acts j)
               (upd s1.acts a { x1 with inJoin := some i, wake := (match timeout with | some tau => some (t + tau) | none => none) } j) :=
             astep_upd _ a _
-              (AStep.mk' (by rw [hx1]) (by rw [hx1]) (by rw [hx1]) (Or.inl (by rw [hx1])) (Or.inl ⟨by rw [hx1], by rw [hx1]⟩)
+              (AStep.mk' (by rw [hx1]) (by rw [hx1]) (by rw [hx1]) (Or.inl (by rw [hx1])) (fun hs => Or.inl ⟨by rw [hx1] at hs; exact hs, by rw [hx1]⟩)
                 (Or.inr rfl) (by rw [hx1]; exact id))
           refine (st1 j).trans ?_
           by_cases hjb : j = b
@@ -122,7 +120,7 @@ theorem applyOp_rel (s s1 r : Sys) (a i : Nat) (t : Rat) (x1 : Actor) (o : Op) (
     · cases h
     · cases h
       exact rel_of_acts s1 _ rfl rfl (astep_upd _ a _
-        (AStep.mk' (by rw [hx1]) (by rw [hx1]) (by rw [hx1]) (Or.inl (by rw [hx1])) (Or.inl ⟨by rw [hx1], by rw [hx1]⟩)
+        (AStep.mk' (by rw [hx1]) (by rw [hx1]) (by rw [hx1]) (Or.inl (by rw [hx1])) (fun hs => Or.inl ⟨by rw [hx1] at hs; exact hs, by rw [hx1]⟩)
           (Or.inl ⟨by rw [hx1], by rw [hx1]⟩) (fun _ => rfl)))
   | killTime b kt =>
     simp only [applyOp] at h
@@ -137,7 +135,7 @@ theorem applyOp_rel (s s1 r : Sys) (a i : Nat) (t : Rat) (x1 : Actor) (o : Op) (
         · rename_i hkt
           cases h
           exact rel_of_acts s1 _ rfl rfl (astep_upd _ b _
-            (AStep.mk' rfl rfl rfl (Or.inr ⟨kt, rfl, Rat.not_le.mp hkt⟩) (Or.inl ⟨rfl, rfl⟩) (Or.inl ⟨rfl, rfl⟩) id))
+            (AStep.mk' rfl rfl rfl (Or.inr ⟨kt, rfl, Rat.not_le.mp hkt⟩) (fun hs => Or.inl ⟨hs, rfl⟩) (Or.inl ⟨rfl, rfl⟩) id))
   | suspend b =>
     simp only [applyOp] at h
     split at h
@@ -151,7 +149,7 @@ theorem applyOp_rel (s s1 r : Sys) (a i : Nat) (t : Rat) (x1 : Actor) (o : Op) (
         · cases h; exact ⟨rfl, SRel.refl _ _ _ _⟩
         · cases h
           exact rel_of_acts s1 _ rfl rfl (astep_upd _ b _
-            (AStep.mk' rfl rfl rfl (Or.inl rfl) (Or.inr ⟨by simpa using hsk, Or.inl rfl⟩) (Or.inl ⟨rfl, rfl⟩) id))
+            (AStep.mk' rfl rfl rfl (Or.inl rfl) (fun hs => absurd hs (by assumption)) (Or.inl ⟨rfl, rfl⟩) id))
   | resume b =>
     simp only [applyOp] at h
     split at h
@@ -165,7 +163,7 @@ theorem applyOp_rel (s s1 r : Sys) (a i : Nat) (t : Rat) (x1 : Actor) (o : Op) (
         · cases h; exact ⟨rfl, SRel.refl _ _ _ _⟩
         · cases h
           exact rel_of_acts s1 _ rfl rfl (astep_upd _ b _
-            (AStep.mk' rfl rfl rfl (Or.inl rfl) (Or.inr ⟨by simpa using hsk, Or.inr rfl⟩) (Or.inl ⟨rfl, rfl⟩) id))
+            (AStep.mk' rfl rfl rfl (Or.inl rfl) (fun _ => Or.inr ⟨by simpa using hsk, rfl⟩) (Or.inl ⟨rfl, rfl⟩) id))
   | onExit g =>
     simp only [applyOp] at h
     split at h
